@@ -71,7 +71,7 @@ def _transform_worker(cfg):
     def res(clause, ok, detail="", nontrivial=True):
         out.append(dict(key=["transform", name, clause], ok=ok, nontrivial=nontrivial, sig="C17/transform/%s-%s/%s" % (cfg["cls"], cfg["tf"], clause),
                         detail="%s: %s" % (name, detail), case=dict(kind="transform", cfg=cfg), n=1,
-                        sample=dict(constraint=name, clause=clause) if clause == "Monotone" and cfg["cls"] == "Interval" else None))
+                        sample=dict(constraint=name, clause=clause) if clause == "Monotone" and cfg["lo"] == 0.1 else None))
 
     if not (bool((con.lower_bound.to(**t64) == lo).all()) and bool((con.upper_bound.to(**t64) == hi).all())):
         res("Bounds", False, "constraint reports bounds [%s, %s]" % (con.lower_bound.tolist(), con.upper_bound.tolist()))
@@ -93,8 +93,7 @@ def _transform_worker(cfg):
         j = bad.nonzero()[0].tolist()
         res("RangeClosed", False, "transform(%r) = %r is outside the closed interval" % (float(raws[j[0]]), float(T[tuple(j)])))
     else:
-        sat_lo = bool((T == lo).any()) if bool(torch.isfinite(lo).all()) else False
-        res("RangeClosed", True, nontrivial=True)
+        res("RangeClosed", True)
     d = T[1:] - T[:-1]
     tolm = 1e-9 * torch.maximum(torch.maximum(T[1:].abs(), T[:-1].abs()).clamp(max=1e300), scale)
     badm = (d < -tolm) & torch.isfinite(T[1:]) & torch.isfinite(T[:-1])
@@ -234,9 +233,14 @@ def ref_logpdf(mp, fam, par, x):
     raise core.Machinery("no reference density for %s" % fam)
 
 
-def make_prior(torch, gp, fam, par, **kw):
+def make_prior(torch, gp, fam, par, shape=None, **kw):
+    """The prior class of a family; shape: parameters as tensors of that shape (a prior per element of a parameter)."""
     P = gp.priors
     f = [float(p) for p in par]
+    if shape is not None:
+        f = [torch.full(tuple(shape), v, dtype=torch.float64) for v in f]
+        if fam == "SmoothedBox":
+            f[2] = float(par[2])
     if fam == "Normal":
         return P.NormalPrior(f[0], f[1], **kw)
     if fam == "LogNormal":
@@ -304,12 +308,10 @@ def _density_worker(chunk):
         ok_, got = core.guarded(lambda: float(prior.log_prob(xt)))
         desc = "%s(%s).log_prob(%s)" % (pname, ", ".join(str(float(p)) for p in par), float(x))
         if want is None:
-            # outside the support: the documented density is 0 (HalfNormal says so explicitly); NaN / -inf / an exception are accepted
-            # for the others, a finite log density is not
-            good = (not ok_) or got == -math.inf or (got != got and fam != "HalfNormal")
-            if fam == "Horseshoe":
-                good = True  # x = 0: the documented expression itself is infinite
-            res(fam, [c["par"], c["x"], "outside"], good, "%s = %s outside the support" % (desc, got), "%s/support" % pname, nontrivial=False)
+            # outside the support only HalfNormalPrior documents the density ("0 for x < 0"); an exception is accepted as well
+            if fam == "HalfNormal":
+                res(fam, [c["par"], c["x"], "outside"], (not ok_) or got == -math.inf, "%s = %s outside the support (documented density 0)" % (desc, got),
+                    "%s/support" % pname, nontrivial=False)
             continue
         good = ok_ and _close(got, float(want))
         res(fam, [c["par"], c["x"]], good, "%s = %s, documented density gives %s" % (desc, got, float(want)), "%s/density" % pname,
@@ -481,7 +483,8 @@ def _module_prior_worker(item):
         for rep in range(item["reps"]):
             root, owner = fresh()
             _, closure, setting = owner._priors[pname]
-            prior = make_prior(torch, gp, fam, [mp.mpf(p) for p in par])
+            shape = tuple(getattr(owner, pub).shape)
+            prior = make_prior(torch, gp, fam, [mp.mpf(p) for p in par], shape=shape if shape else None)
             owner.register_prior(pname, prior, closure, setting)
             s = rnd.randrange(1 << 30)
             torch.manual_seed(s)
@@ -550,7 +553,7 @@ def _mll_worker(item):
     return out
 
 
-def run_priors(ck, states, thorough):
+def run_priors(ck, states, thorough, cells=None):
     torch, gp = _env()
     if not states:
         ck.vacuous("ConstraintPriors.tla produced no evaluation point")
@@ -568,7 +571,7 @@ def run_priors(ck, states, thorough):
     cases.sort(key=lambda c: core.digest(c))
     for i, c in enumerate(cases):
         c["transform"] = True
-        c["sample"] = i % 211 == 0
+        c["sample"] = i % 977 == 0
     chunks = [cases[i:i + 60] for i in range(0, len(cases), 60)]
     results = core.pmap(_density_worker, chunks, chunksize=1)
     ck.absorb(results)
@@ -591,8 +594,9 @@ def run_priors(ck, states, thorough):
     ck.absorb(results)
     ck.section("prior_normalisation", integrals=len(results))
     # priors on modules
-    from checks import c17
-    cells, _ = c17.discover(torch, gp)
+    if cells is None:
+        from checks import c17
+        cells, _ = c17.discover(torch, gp)
     seen, items = set(), []
     pts = []
     for fam in ("Gamma", "LogNormal", "HalfCauchy", "Normal", "SmoothedBox"):
@@ -634,6 +638,12 @@ def run_observations(ck):
     obs["Module.initialize(raw_lengthscale=0.5) (python float)"] = "accepted" if ok else r
     ok, r = core.guarded(lambda: tuple(gp.priors.LKJCovariancePrior(3, 1.5, gp.priors.GammaPrior(2.0, 1.0)).log_prob(torch.eye(3, dtype=torch.float64)).shape))
     obs["LKJCovariancePrior(3, 1.5, GammaPrior(2, 1)).log_prob(I).shape"] = r
+    iv = C.Interval(-1.0, 0.3)
+    top = iv.transform(torch.tensor(40.0, dtype=torch.float64))
+    obs["Interval(-1.0, 0.3): transform(40.) - upper_bound (rounding of sigmoid * (hi - lo) + lo; inside the 4e-15 slack)"] = float(top - 0.3)
+    obs["Interval(-1.0, 0.3).check_raw(40.)"] = bool(iv.check_raw(torch.tensor(40.0, dtype=torch.float64)))
+    ok, r = core.guarded(lambda: repr(C.GreaterThan(torch.tensor([1.0], dtype=torch.float64))))
+    obs["repr(GreaterThan(tensor([1.])))"] = r
     ck.extra["observations_outside_the_claim"] = obs
 
 
